@@ -358,3 +358,65 @@ def run_entry(it, name, *args):
     f = it.prog.get(name)
     if f is None: raise Unsupported('entry point not found: ' + name)
     return it.run(f, list(args))
+
+
+# ---- chain model: what a Response does to balances ------------------------------------------------------
+class Effect:
+    """one balance effect of an emitted message. kind in send|burn|mint|pull|call|other; asset = denom or cw20 contract (Str)."""
+    __slots__ = ('kind', 'asset', 'native', 'src', 'dst', 'amount', 'msg', 'funds', 'sub')
+    def __init__(self, kind, asset=None, native=False, src=None, dst=None, amount=None, msg=None, funds=None, sub=None):
+        self.kind = kind; self.asset = asset; self.native = native; self.src = src; self.dst = dst; self.amount = amount
+        self.msg = msg; self.funds = funds; self.sub = sub
+    def __repr__(self): return 'Effect(%s %s %s->%s %s)' % (self.kind, self.asset, self.src, self.dst, self.amount)
+
+
+def sname(x):
+    x = deref(x)
+    if isinstance(x, Agg) and x.name == 'cosmwasm_std::Addr': x = x.fields[0]
+    return x
+
+
+def effects(resp, self_addr):
+    """list of Effect for every message of a Response, in order."""
+    out = []
+    me = Str(self_addr) if not isinstance(self_addr, Str) else self_addr
+    for sm, m in messages(resp):
+        if not isinstance(m, Enum): out.append(Effect('other', msg=m, sub=sm)); continue
+        if m.variant == 'Bank':
+            b = m.fields[0]
+            if b.variant == 'Send':
+                for coin in b.fields[1].items:
+                    out.append(Effect('send', sname(coin.fields[0]), True, me, sname(b.fields[0]), coin.fields[1].fields[0], sub=sm))
+            elif b.variant == 'Burn':
+                for coin in b.fields[0].items:
+                    out.append(Effect('burn', sname(coin.fields[0]), True, me, None, coin.fields[1].fields[0], sub=sm))
+            continue
+        if m.variant == 'Wasm' and m.fields[0].variant == 'Execute':
+            w = m.fields[0]; tgt = sname(w.fields[0]); p = w.fields[1].fields[0]
+            inner = p.payload if isinstance(p, Opaque) else p
+            funds = w.fields[2].items
+            if isinstance(inner, Enum) and inner.name == 'cw20::Cw20ExecuteMsg':
+                v = inner.variant; f = inner.fields
+                if v == 'Transfer': out.append(Effect('send', tgt, False, me, sname(f[0]), f[1].fields[0], sub=sm)); continue
+                if v == 'Burn': out.append(Effect('burn', tgt, False, me, None, f[0].fields[0], sub=sm)); continue
+                if v == 'Mint': out.append(Effect('mint', tgt, False, None, sname(f[0]), f[1].fields[0], sub=sm)); continue
+                if v == 'TransferFrom': out.append(Effect('pull', tgt, False, sname(f[0]), sname(f[1]), f[2].fields[0], sub=sm)); continue
+                if v == 'Send': out.append(Effect('send', tgt, False, me, sname(f[0]), f[1].fields[0], msg=f[2], sub=sm)); continue
+                if v == 'BurnFrom': out.append(Effect('burnfrom', tgt, False, sname(f[0]), None, f[1].fields[0], sub=sm)); continue
+                if v == 'IncreaseAllowance': out.append(Effect('allow', tgt, False, me, sname(f[0]), f[1].fields[0], sub=sm)); continue
+            out.append(Effect('call', tgt, False, me, tgt, None, msg=inner, funds=funds, sub=sm)); continue
+        out.append(Effect('other', msg=m, sub=sm))
+    return out
+
+
+def same(a, b):
+    """python-level identity test of two concrete names (Str or str)."""
+    a = a.s if isinstance(a, Str) else a; b = b.s if isinstance(b, Str) else b
+    return a == b
+
+
+def total(effs, kind, asset, pred=None):
+    t = 0
+    for e in effs:
+        if e.kind == kind and e.asset is not None and same(e.asset, asset) and (pred is None or pred(e)): t = t + e.amount
+    return t
